@@ -188,31 +188,51 @@ example : fromWords (.ints { allowNoneEl := true, sizeMax := some 3 }) envDec .n
 
 /-! ### 6. formatting refuses values outside the declaration -/
 
-/-- (a) a number below `value_min` is refused by `int` and `float` … -/
+/-- (a) a number `v` is refused with "value_min" by `int` and `float` exactly when Python's
+    `value_min <= v` is false (`v` below the bound, or `v` = nan) … -/
 theorem asWords_refuses_below_min (c : Conv) (a : NumArgs) (hc : c = .int a ∨ c = .float a)
     (fmt : FmtEnv) (opt : AttrVal) (mws : List Word) (v lo : PNum)
-    (h1 : a.valueMin = some lo) (h2 : pyLt v lo = true) :
-    asWords c fmt opt mws (.num v) = .error (.runtime "value_min" none) := by
+    (h1 : a.valueMin = some lo) :
+    asWords c fmt opt mws (.num v) = .error (.runtime "value_min" none) ↔ pyLe lo v = false := by
   rcases hc with rfl | rfl
-  · rw [asWords_int_num]; exact scalarAsWords_lt_min _ a fmt v lo h1 h2
-  · rw [asWords_float_num]; exact scalarAsWords_lt_min _ a fmt v lo h1 h2
+  · rw [asWords_int_num]; exact scalarAsWords_value_min_iff _ a fmt v lo h1
+  · rw [asWords_float_num]; exact scalarAsWords_value_min_iff _ a fmt v lo h1
 
-/-- … and one above `value_max` (that is not also below `value_min`, which is reported first). -/
+/-- … and with "value_max" exactly when `v <= value_max` is false while `value_min <= v` (reported
+    first) holds. -/
 theorem asWords_refuses_above_max (c : Conv) (a : NumArgs) (hc : c = .int a ∨ c = .float a)
     (fmt : FmtEnv) (opt : AttrVal) (mws : List Word) (v hi : PNum)
-    (h1 : a.valueMax = some hi) (h2 : pyLt hi v = true)
-    (h3 : ∀ lo, a.valueMin = some lo → pyLt v lo = false) :
-    asWords c fmt opt mws (.num v) = .error (.runtime "value_max" none) := by
+    (h1 : a.valueMax = some hi) :
+    asWords c fmt opt mws (.num v) = .error (.runtime "value_max" none) ↔
+      (pyLe v hi = false ∧ ∀ lo, a.valueMin = some lo → pyLe lo v = true) := by
   rcases hc with rfl | rfl
-  · rw [asWords_int_num]; exact scalarAsWords_gt_max _ a fmt v hi h1 h2 h3
-  · rw [asWords_float_num]; exact scalarAsWords_gt_max _ a fmt v hi h1 h2 h3
+  · rw [asWords_int_num]; exact scalarAsWords_value_max_iff _ a fmt v hi h1
+  · rw [asWords_float_num]; exact scalarAsWords_value_max_iff _ a fmt v hi h1
+
+/-- in particular `nan` is never written for a type with a declared bound -/
+theorem asWords_refuses_nan (a : NumArgs) (fmt : FmtEnv) (opt : AttrVal) (mws : List Word)
+    (hb : a.valueMin.isSome = true ∨ a.valueMax.isSome = true) :
+    asWords (.float a) fmt opt mws (.num .nan) =
+      .error (.runtime (if a.valueMin.isSome then "value_min" else "value_max") none) := by
+  cases h1 : a.valueMin with
+  | some lo =>
+    exact (asWords_refuses_below_min _ a (.inr rfl) fmt opt mws .nan lo h1).mpr (pyLe_nan_right lo)
+  | none =>
+    cases h2 : a.valueMax with
+    | none => simp [h1, h2] at hb
+    | some hi =>
+      exact (asWords_refuses_above_max _ a (.inr rfl) fmt opt mws .nan hi h2).mpr
+        ⟨pyLe_nan_left hi, by simp [h1]⟩
 
 example : asWords (.int { valueMin := some (.int 3) }) (fun _ => none) .none [] (.num (.int 2))
     = .error (.runtime "value_min" none) :=
-  asWords_refuses_below_min _ _ (.inl rfl) _ _ _ _ _ rfl (by decide)
+  (asWords_refuses_below_min _ _ (.inl rfl) _ _ _ _ _ rfl).mpr (by decide +kernel)
 example : asWords (.float { valueMax := some (.flt 1 2) }) (fun _ => none) .none [] (.num (.flt 3 4))
     = .error (.runtime "value_max" none) :=
-  asWords_refuses_above_max _ _ (.inr rfl) _ _ _ _ _ rfl (by decide +kernel) (by simp)
+  (asWords_refuses_above_max _ _ (.inr rfl) _ _ _ _ _ rfl).mpr ⟨by decide +kernel, by simp⟩
+example : asWords (.float { valueMax := some (.flt 1 2) }) (fun _ => none) .none [] (.num .nan)
+    = .error (.runtime "value_max" none) :=
+  asWords_refuses_nan _ _ _ _ (.inr rfl)
 
 /-- (b) `None` is refused by `int`/`float` declared with `allow_none=False`. -/
 theorem asWords_refuses_none (c : Conv) (a : NumArgs) (hc : c = .int a ∨ c = .float a)
